@@ -46,7 +46,7 @@ type Conn struct {
 	Outcome string `json:"outcome"` // join | nocode | badcode | reused | claims | early | topic | expired | aud | denied | scope | notfound
 	Topic   int    `json:"topic"`
 	HasBid  bool   `json:"has_bid"`
-	End     string `json:"end"` // "" (stays live) | clientclose | netloss | expiry | cancel | evict
+	End     string `json:"end"` // "" (stays live) | clientclose | netloss | expiry | cancel | evict (stays stalled) | evictdrain (reads again once evicted)
 
 	Accepted bool   `json:"accepted"`  // observed: the relay registered it
 	SockOpen bool   `json:"sock_open"` // observed after settling: the client's socket was still open
@@ -68,11 +68,17 @@ type Case struct {
 	Obs      Obs    `json:"obs"`
 	SettleMs int    `json:"settle_ms"`
 	Kind     string `json:"kind"`
+	// after the history, when every client has disconnected: what is left beyond what was there
+	// when the history began (absolute counts in Idle*)
+	IdleChan       int `json:"idle_chan"`
+	IdleChanDelta  int `json:"idle_chan_delta"`
+	IdleMembers    int `json:"idle_members_delta"`
+	IdleGoroutines int `json:"idle_goroutines_delta"`
 }
 
 var refusalCoq = map[string]string{"nocode": "NoCode", "badcode": "BadCode", "reused": "BadCode", "claims": "MissingClaims",
 	"early": "TooEarly", "topic": "Invalid", "expired": "Invalid", "aud": "Invalid", "denied": "DeniedBooking", "scope": "NoScopes", "notfound": "NotFound"}
-var endCoq = map[string]string{"clientclose": "ClientClose", "netloss": "NetLoss", "expiry": "Expiry", "cancel": "Cancel", "evict": "Evict"}
+var endCoq = map[string]string{"clientclose": "ClientClose", "netloss": "NetLoss", "expiry": "Expiry", "cancel": "Cancel", "evict": "Evict", "evictdrain": "Evict"}
 
 func (c Case) coq() string {
 	var evs []string
@@ -144,6 +150,17 @@ func startRig() *rig {
 		time.Sleep(5 * time.Millisecond)
 	}
 	return r
+}
+
+// members counts the connections the status report lists on a topic
+func (r *rig) members(topic string) int {
+	n := 0
+	for _, rep := range r.hub.GetStats() {
+		if rep.Topic == topic {
+			n++
+		}
+	}
+	return n
 }
 
 func (r *rig) count(m map[string]int, k string) int {
@@ -304,6 +321,9 @@ func runHistory(r *rig, tag string, c *Case) {
 			r.cs.ExchangeCode(code) // somebody used it already
 		}
 		before := r.count(r.registered, bid)
+		// a reader that stays stalled gets a tiny receive buffer (the path clogs after a few MB); one
+		// that will catch up keeps the default buffers: it takes tens of MB to block its writer,
+		// but then it drains them in no time
 		ws, err := r.dial(path, code, k.End == "evict")
 		if err != nil {
 			if k.Outcome != "notfound" {
@@ -329,19 +349,10 @@ func runHistory(r *rig, tag string, c *Case) {
 	var rmu sync.Mutex
 	closedSeen := map[int]bool{}
 	for i, l := range conns {
-		if l == nil || c.Conns[i].End == "evict" || !c.Conns[i].Accepted {
+		if l == nil || c.Conns[i].End == "evict" || c.Conns[i].End == "evictdrain" || !c.Conns[i].Accepted {
 			continue
 		}
-		go func(i int, ws *websocket.Conn) {
-			for {
-				if _, _, err := ws.ReadMessage(); err != nil {
-					rmu.Lock()
-					closedSeen[i] = true
-					rmu.Unlock()
-					return
-				}
-			}
-		}(i, l.ws)
+		go readUntilClosed(i, l.ws, &rmu, closedSeen)
 	}
 
 	// the ends, in the order of the history
@@ -362,7 +373,7 @@ func runHistory(r *rig, tag string, c *Case) {
 		case "cancel":
 			r.ds.Deny(l.bid, time.Now().Unix()+3600)
 			r.denied <- l.bid
-		case "evict":
+		case "evict", "evictdrain":
 			// find a live partner on the same topic
 			var p *websocket.Conn
 			for j, o := range c.Conns {
@@ -374,21 +385,37 @@ func runHistory(r *rig, tag string, c *Case) {
 				k.Note = "no partner to flood with"
 				continue
 			}
-			if floodStart.IsZero() {
-				floodStart = time.Now()
-			}
+			// evicted = the status report lists one member fewer on the topic (the evictee never
+			// sends, so its partner cannot be the one that goes); the hub's own drop point also counts
+			topic := fmt.Sprintf("%s-t%d", tag, k.Topic)
+			m0 := r.members(topic)
+			gone := func() bool { return r.count(r.dropped, l.bid) > 0 || r.members(topic) < m0 }
+			start := time.Now()
 			big := make([]byte, 256*1024)
-			for n := 0; n < 60 && r.count(r.dropped, l.bid) == 0; n++ {
+			maxMsgs := 60
+			if k.End == "evictdrain" {
+				maxMsgs = 600
+			}
+			for n := 0; n < maxMsgs && !gone(); n++ {
 				p.SetWriteDeadline(time.Now().Add(2 * time.Second))
 				if p.WriteMessage(websocket.BinaryMessage, big) != nil {
 					break
 				}
 			}
-			for w := 0; w < 200 && r.count(r.dropped, l.bid) == 0; w++ {
+			for w := 0; w < 200 && !gone(); w++ {
 				time.Sleep(10 * time.Millisecond)
 			}
-			if r.count(r.dropped, l.bid) == 0 {
+			if !gone() {
 				k.Note = "flood did not get the stalled reader evicted"
+				continue
+			}
+			if k.End == "evict" {
+				// stays stalled: its writer is inside a blocked write until the write deadline
+				if floodStart.IsZero() {
+					floodStart = start
+				}
+			} else {
+				go readUntilClosed(i, l.ws, &rmu, closedSeen) // the slow reader catches up after all
 			}
 		}
 	}
@@ -398,7 +425,7 @@ func runHistory(r *rig, tag string, c *Case) {
 	// expected residue according to the PROPERTY (not the model): only what is live
 	liveN, liveBid := 0, 0
 	for _, k := range c.Conns {
-		if k.Accepted && (k.End == "" || (k.End == "evict" && k.Note != "")) {
+		if k.Accepted && (k.End == "" || k.Note != "") {
 			liveN++
 			if k.HasBid {
 				liveBid++
@@ -455,7 +482,7 @@ func runHistory(r *rig, tag string, c *Case) {
 		if l == nil || k.End == "clientclose" || k.End == "netloss" {
 			continue
 		}
-		if k.End == "evict" {
+		if k.End == "evict" && k.Note == "" {
 			// the path to this client is clogged by the flood (zero window, persist timer backed off),
 			// so reading would take many seconds. Writing answers at once: data sent to a socket the
 			// server has closed is answered with a reset and the following write fails.
@@ -489,13 +516,221 @@ func runHistory(r *rig, tag string, c *Case) {
 		}
 	}
 	runtime.KeepAlive(conns)
-	deadline := time.Now().Add(writeWait + 2*time.Second)
-	for time.Now().Before(deadline) {
-		mm := r.measure()
-		if mm.readers == base.readers && mm.writers == base.writers && len(mm.topics) == len(base.topics) {
+	r.idleResidue(c, base, !floodStart.IsZero())
+}
+
+// idleResidue waits until everything of the history has gone (every client has disconnected now)
+// and records what is left beyond the state the history started from.
+func (r *rig) idleResidue(c *Case, base measure, blockedWriter bool) {
+	wait := 3 * time.Second
+	if blockedWriter {
+		wait = writeWait + 2*time.Second
+	}
+	deadline := time.Now().Add(wait)
+	var mm measure
+	for {
+		mm = r.measure()
+		if mm.readers <= base.readers && mm.writers <= base.writers && mm.watchers <= base.watchers &&
+			len(mm.topics) <= len(base.topics) && mm.chans <= base.chans {
+			break
+		}
+		if time.Now().After(deadline) {
 			break
 		}
 		time.Sleep(30 * time.Millisecond)
+	}
+	c.IdleChan = mm.chans
+	c.IdleChanDelta = mm.chans - base.chans
+	c.IdleMembers = len(mm.topics) - len(base.topics)
+	c.IdleGoroutines = (mm.readers + mm.writers + mm.watchers) - (base.readers + base.writers + base.watchers)
+}
+
+// runHangup: "instant hang-up under hub load". The first three connections of the case are
+// flooders (each alone on its topic as far as lasting members go, sending continuously, so the hub
+// loop always has a broadcast to do); all others connect in parallel and hang up the moment the
+// handshake returns, half with a close frame, half by closing TCP, half of them on the flooders'
+// topics. Meanwhile the hub's lock is held for 3 ms out of every 3.5 ms (overlay accessor), so that
+// register, unregister and broadcast requests pile up and the hub's select has to choose among them.
+func runHangup(r *rig, tag string, c *Case) {
+	for i := 0; i < 2; i++ {
+		runtime.GC()
+		time.Sleep(60 * time.Millisecond)
+	}
+	base := r.measure()
+	old := debug.SetGCPercent(-1)
+	defer debug.SetGCPercent(old)
+	now := time.Now().Unix()
+	conns := make([]*websocket.Conn, len(c.Conns))
+	bids := make([]string, len(c.Conns))
+	connect := func(i int) (*websocket.Conn, error) {
+		k := &c.Conns[i]
+		topic := fmt.Sprintf("%s-t%d", tag, k.Topic)
+		bids[i] = fmt.Sprintf("%s-b%d", tag, i)
+		code := r.submit(r.aud, topic, bids[i], []string{"read", "write"}, now-5, now+3600)
+		return r.dial("/session/"+topic, code, false)
+	}
+	stop := make(chan struct{})
+	var bg sync.WaitGroup
+	nf := 0
+	for i := range c.Conns {
+		if c.Conns[i].End != "" {
+			break
+		}
+		nf++
+		ws, err := connect(i)
+		if err != nil {
+			c.Conns[i].Note = "flooder dial failed: " + err.Error()
+			continue
+		}
+		conns[i] = ws
+		bg.Add(2)
+		go func(ws *websocket.Conn) { // keeps the client side healthy
+			defer bg.Done()
+			for {
+				if _, _, err := ws.ReadMessage(); err != nil {
+					return
+				}
+			}
+		}(ws)
+		go func(ws *websocket.Conn) {
+			defer bg.Done()
+			msg := make([]byte, 512)
+			for {
+				select {
+				case <-stop:
+					return
+				default:
+				}
+				ws.SetWriteDeadline(time.Now().Add(2 * time.Second))
+				if ws.WriteMessage(websocket.BinaryMessage, msg) != nil {
+					return
+				}
+				time.Sleep(200 * time.Microsecond)
+			}
+		}(ws)
+	}
+	bg.Add(1)
+	go func() { // the busy hub
+		defer bg.Done()
+		for {
+			select {
+			case <-stop:
+				return
+			default:
+			}
+			crossbar.VerifHoldHub(r.hub, 3*time.Millisecond)
+			time.Sleep(500 * time.Microsecond)
+		}
+	}()
+	sem := make(chan struct{}, 24)
+	var wg sync.WaitGroup
+	for i := nf; i < len(c.Conns); i++ {
+		wg.Add(1)
+		sem <- struct{}{}
+		go func(i int) {
+			defer wg.Done()
+			defer func() { <-sem }()
+			ws, err := connect(i)
+			if err != nil {
+				c.Conns[i].Note = "dial failed: " + err.Error()
+				return
+			}
+			if c.Conns[i].End == "clientclose" {
+				ws.WriteControl(websocket.CloseMessage, websocket.FormatCloseMessage(websocket.CloseNormalClosure, ""), time.Now().Add(time.Second))
+				ws.Close()
+			} else {
+				ws.UnderlyingConn().Close()
+			}
+		}(i)
+	}
+	wg.Wait()
+	time.Sleep(300 * time.Millisecond) // handlers still on their way to the hub get there
+	close(stop)
+	for i := range c.Conns {
+		c.Conns[i].Accepted = r.count(r.registered, bids[i]) > 0
+	}
+	liveN := 0
+	for i := 0; i < nf; i++ {
+		if c.Conns[i].Accepted {
+			liveN++
+		}
+	}
+	bound := time.Now().Add(settleBound)
+	t0 := time.Now()
+	var m measure
+	for {
+		m = r.measure()
+		if m.readers-base.readers == liveN && m.writers-base.writers == liveN && m.watchers-base.watchers == liveN &&
+			len(m.topics)-len(base.topics) == liveN && m.chans-base.chans == liveN {
+			break
+		}
+		if time.Now().After(bound) {
+			break
+		}
+		time.Sleep(20 * time.Millisecond)
+	}
+	c.SettleMs = int(time.Since(t0) / time.Millisecond)
+	c.Obs = Obs{Readers: m.readers - base.readers, Writers: m.writers - base.writers, Watchers: m.watchers - base.watchers, Chan: m.chans - base.chans}
+	baseT := map[string]int{}
+	for _, t := range base.topics {
+		baseT[t]++
+	}
+	for _, t := range m.topics {
+		if baseT[t] > 0 {
+			baseT[t]--
+			continue
+		}
+		n := 9999
+		if strings.HasPrefix(t, tag+"-t") {
+			n, _ = strconv.Atoi(strings.TrimPrefix(t, tag+"-t"))
+		}
+		c.Obs.Topics = append(c.Obs.Topics, n)
+	}
+	sort.Ints(c.Obs.Topics)
+	clientFds := 0
+	for i := 0; i < nf; i++ {
+		if conns[i] != nil {
+			clientFds++
+		}
+	}
+	c.Obs.Socks = (m.socks - clientFds) - base.socks
+	for i := 0; i < nf; i++ {
+		if conns[i] != nil {
+			conns[i].Close()
+		}
+	}
+	bg.Wait()
+	for i := range c.Conns {
+		if c.Conns[i].End != "" {
+			c.Order = append(c.Order, i)
+		}
+	}
+	r.idleResidue(c, base, false)
+}
+
+func genHangup(rng *lib.Rng, n int) Case {
+	c := Case{Kind: fmt.Sprintf("hangup-%d", n)}
+	for t := 1; t <= 3; t++ {
+		c.Conns = append(c.Conns, Conn{Outcome: "join", Topic: t, HasBid: true})
+	}
+	for i := 0; i < n; i++ {
+		e := "clientclose"
+		if rng.Bool() {
+			e = "netloss"
+		}
+		c.Conns = append(c.Conns, Conn{Outcome: "join", Topic: 1 + rng.Intn(6), HasBid: true, End: e})
+	}
+	return c
+}
+
+func readUntilClosed(i int, ws *websocket.Conn, mu *sync.Mutex, closedSeen map[int]bool) {
+	for {
+		if _, _, err := ws.ReadMessage(); err != nil {
+			mu.Lock()
+			closedSeen[i] = true
+			mu.Unlock()
+			return
+		}
 	}
 }
 
@@ -504,7 +739,7 @@ func runHistory(r *rig, tag string, c *Case) {
 var refusals = []string{"nocode", "badcode", "reused", "claims", "early", "topic", "expired", "aud", "denied", "scope", "notfound"}
 var ends = []string{"clientclose", "netloss", "expiry", "cancel"}
 
-func genHistory(rng *lib.Rng, n int, withEvict bool) Case {
+func genHistory(rng *lib.Rng, n int, evictions string) Case {
 	c := Case{Kind: fmt.Sprintf("random-%d", n)}
 	ntopics := 1 + n/4
 	for i := 0; i < n; i++ {
@@ -523,9 +758,13 @@ func genHistory(rng *lib.Rng, n int, withEvict bool) Case {
 		}
 		c.Conns = append(c.Conns, k)
 	}
-	if withEvict {
-		t := ntopics + 1
-		c.Conns = append(c.Conns, Conn{Topic: t, HasBid: true, Outcome: "join"}, Conn{Topic: t, HasBid: true, Outcome: "join", End: "evict"})
+	for j, ch := range evictions {
+		t := ntopics + 1 + j
+		e := "evict"
+		if ch == 'd' {
+			e = "evictdrain"
+		}
+		c.Conns = append(c.Conns, Conn{Topic: t, HasBid: true, Outcome: "join"}, Conn{Topic: t, HasBid: true, Outcome: "join", End: e})
 	}
 	for i, k := range c.Conns {
 		if k.End != "" {
@@ -550,12 +789,31 @@ func gen(rng *lib.Rng, tier string, a lib.Args) []Case {
 	}
 	cs = append(cs, Case{Kind: "single-live", Conns: []Conn{{Outcome: "join", Topic: 1, HasBid: false}}})
 	cs = append(cs, Case{Kind: "single-evict", Conns: []Conn{{Outcome: "join", Topic: 1, HasBid: true}, {Outcome: "join", Topic: 1, HasBid: true, End: "evict"}}, Order: []int{1}})
+	cs = append(cs, Case{Kind: "single-evictdrain", Conns: []Conn{{Outcome: "join", Topic: 1, HasBid: true}, {Outcome: "join", Topic: 1, HasBid: true, End: "evictdrain"}}, Order: []int{1}})
+	// evictions inside the random histories: "d" = the evicted reader catches up again (quick to
+	// settle), "s" = it stays stalled (its writer returns only at the write deadline, 10 s)
 	n5, n40 := a.Pick(6, 40), a.Pick(3, 12)
 	for i := 0; i < n5; i++ {
-		cs = append(cs, genHistory(rng.Fork(), 5, tier == "thorough" && i%8 == 0))
+		ev := ""
+		if i%3 == 0 {
+			ev = "d"
+		}
+		if tier == "thorough" && i%8 == 4 {
+			ev = "sd"
+		}
+		cs = append(cs, genHistory(rng.Fork(), 5, ev))
 	}
 	for i := 0; i < n40; i++ {
-		cs = append(cs, genHistory(rng.Fork(), 40, i == 0 || (tier == "thorough" && i%4 == 0)))
+		ev := "d"
+		if i == 0 || (tier == "thorough" && i%4 == 0) {
+			ev = "sd"
+		}
+		cs = append(cs, genHistory(rng.Fork(), 40, ev))
+	}
+	// instant hang-ups while the hub is busy
+	cs = append(cs, genHangup(rng.Fork(), a.Pick(200, 300)))
+	if tier == "thorough" {
+		cs = append(cs, genHangup(rng.Fork(), 300), genHangup(rng.Fork(), 150))
 	}
 	return cs
 }
@@ -568,7 +826,7 @@ func oracle(c Case, idx int, res *lib.Result) {
 	}
 	liveN, liveBid := 0, 0
 	for _, k := range c.Conns {
-		if k.Accepted && (k.End == "" || (k.End == "evict" && k.Note != "")) {
+		if k.Accepted && (k.End == "" || k.Note != "") {
 			liveN++
 			if k.HasBid {
 				liveBid++
@@ -589,6 +847,22 @@ func oracle(c Case, idx int, res *lib.Result) {
 	}
 	if c.Obs.Chan > liveBid {
 		bad("chanmap-residue", "chanmap-residue", fmt.Sprintf("%d deny-channel entries for %d live connections with a booking id", c.Obs.Chan, liveBid))
+	}
+	// and when every client of the history has disconnected nothing of it may be left at all
+	ends := map[string]int{}
+	for _, k := range c.Conns {
+		if k.Accepted && k.End != "" && k.Note == "" {
+			ends[k.End]++
+		}
+	}
+	if c.IdleChanDelta > 0 {
+		bad("chanmap-residue", "chanmap-residue", fmt.Sprintf("after every client had disconnected, %d deny-channel entries of this history are still recorded (%d in the store); ends in the history: %v", c.IdleChanDelta, c.IdleChan, ends))
+	}
+	if c.IdleMembers > 0 {
+		bad("listed-after-end", "member-residue", fmt.Sprintf("after every client had disconnected, the status report still lists %d members of this history; ends in the history: %v", c.IdleMembers, ends))
+	}
+	if c.IdleGoroutines > 0 {
+		bad("goroutine-residue", "goroutine-residue:idle", fmt.Sprintf("after every client had disconnected, %d per-connection goroutines of this history are still there", c.IdleGoroutines))
 	}
 	for i, k := range c.Conns {
 		if !k.SockOpen {
@@ -762,7 +1036,11 @@ func main() {
 	watchdog := time.AfterFunc(25*time.Minute, func() { fmt.Fprintln(os.Stderr, "c13: watchdog"); os.Exit(3) })
 	defer watchdog.Stop()
 	for i := range cases {
-		runHistory(r, fmt.Sprintf("s%dh%d", a.Seed, i), &cases[i])
+		if strings.HasPrefix(cases[i].Kind, "hangup") {
+			runHangup(r, fmt.Sprintf("s%dh%d", a.Seed, i), &cases[i])
+		} else {
+			runHistory(r, fmt.Sprintf("s%dh%d", a.Seed, i), &cases[i])
+		}
 	}
 
 	coq := make([]string, len(cases))
